@@ -552,7 +552,7 @@ def PForest.commentsOneLine : PForest → Bool
   | .tok _ _ r => r.commentsOneLine
   | .node l k r => (if isComment l then !(k.tokens.any (·.contains 10)) else k.commentsOneLine) && r.commentsOneLine
 
-/-! ### blocks with no content
+/-! ### blocks with no content -/
 
 /-- labels of the nodes that are printed as `keyword { … }` (obligation `brace_labels_are_blocks`: exactly the block
 productions the generator can reach) -/
